@@ -1,31 +1,45 @@
 #!/usr/bin/env python3
-"""applies each seeded change under /verif/seeded/<id>/patch.diff to /repo, runs the quick check of
-the property it breaks (and optionally others), records what the check reported, and restores /repo.
-usage: tools/run_seeded.py [id ...]"""
+"""runs the quick check of the property a seeded change breaks against a tree with that change applied.
+By default the change is applied in a scratch worktree of /repo (so that other work using /repo is not
+disturbed) and the check is pointed at it with VERIF_REPO; with --in-place it is applied to /repo
+itself (git apply), checked, and undone (git checkout -- .).
+usage: tools/run_seeded.py [--in-place] [id ...]"""
 import json, os, subprocess, sys, time
 ROOT = os.path.dirname(os.path.dirname(os.path.abspath(__file__)))
 REPO = "/repo"
-ids = sys.argv[1:] or sorted(os.listdir(os.path.join(ROOT, "seeded")))
+args = [a for a in sys.argv[1:] if not a.startswith("--")]
+inplace = "--in-place" in sys.argv
+ids = args or sorted(os.listdir(os.path.join(ROOT, "seeded")))
 for i in ids:
     d = os.path.join(ROOT, "seeded", i)
     if not os.path.exists(os.path.join(d, "patch.diff")):
         continue
     meta = json.load(open(os.path.join(d, "meta.json")))
-    st = subprocess.run(["git", "-C", REPO, "status", "--porcelain", "--untracked-files=no"], capture_output=True, text=True).stdout.strip()
-    if st:
-        print("refusing: /repo has uncommitted changes:\n" + st); sys.exit(2)
-    a = subprocess.run(["git", "-C", REPO, "apply", os.path.join(d, "patch.diff")], capture_output=True, text=True)
+    if inplace:
+        tree = REPO
+        st = subprocess.run(["git", "-C", REPO, "status", "--porcelain", "--untracked-files=no"], capture_output=True, text=True).stdout.strip()
+        if st:
+            print("refusing: /repo has uncommitted changes:\n" + st); sys.exit(2)
+    else:
+        tree = "/tmp/seedrun"
+        subprocess.run(["git", "-C", REPO, "worktree", "remove", "--force", tree], capture_output=True)
+        subprocess.run(["git", "-C", REPO, "worktree", "add", "-q", tree, "HEAD"], check=True)
+    a = subprocess.run(["git", "-C", tree, "apply", os.path.join(d, "patch.diff")], capture_output=True, text=True)
     if a.returncode != 0:
         print(i, "patch does not apply:", a.stderr[:300]); continue
     res = {}
     try:
         for pid in meta.get("checks", [meta["property"]]):
             t0 = time.time()
-            p = subprocess.run([os.path.join(ROOT, "check"), pid, "--tier", "quick"], cwd=ROOT, capture_output=True, text=True)
-            lines = [l for l in p.stdout.split("\n") if l.startswith("VIOLATION") or l.startswith("OK ") or l.startswith("KNOWN-FINDING")]
+            env = dict(os.environ, VERIF_REPO=tree)
+            p = subprocess.run([os.path.join(ROOT, "check"), pid, "--tier", "quick"], cwd=ROOT, capture_output=True, text=True, env=env)
+            lines = [l for l in p.stdout.split("\n") if l.startswith("VIOLATION") or l.startswith("OK ")]
             detail = [l.strip() for l in p.stdout.split("\n") if l.startswith("   ")][:6]
             res[pid] = {"exit": p.returncode, "lines": lines, "detail": detail, "wall_s": round(time.time() - t0)}
-            print(i, pid, "exit", p.returncode, lines[:2], detail[:1])
+            print(i, pid, "exit", p.returncode, lines[:2], detail[:2])
     finally:
-        subprocess.run(["git", "-C", REPO, "checkout", "--", "."], check=True)
+        if inplace:
+            subprocess.run(["git", "-C", REPO, "checkout", "--", "."], check=True)
+        else:
+            subprocess.run(["git", "-C", REPO, "worktree", "remove", "--force", tree], capture_output=True)
     json.dump(res, open(os.path.join(d, "result.json"), "w"), indent=1)
